@@ -137,6 +137,8 @@ Corruptions ==
               \cup (IF "distance_function" \in DOMAIN CompAt(s)
                       THEN {Desc("set_value", s[2], "distance_function", "\"chebyshev\"", "reject")} ELSE {})
               : s \in Slots}
+  \* a mapping is unordered: the same parameters written in the opposite order describe the same component
+  \cup {Desc("reverse_params", s[2], "", "", "accept") : s \in {t \in Slots : Cardinality(DOMAIN CompAt(t)) >= 3}}
   \* valid rewrites of the observation function: the same area seen through from_visibility with a nested visibility
   \* function, with and without parameters (nested parameters must reach the function: "threshold" / "absolute_counts"
   \* are accepted by raytracing only), and with a nested parameter nobody accepts (ignored) or an unknown nested name
